@@ -115,6 +115,8 @@ def run(ck, F):
     for r in (K.R_diag, K.R_lex):
         ck.rules[r]['floor'] = 30
     ck.rules[K.R_atom]['floor'] = 2
+    ck.rules[K.R_guard]['floor'] = 40
+    ck.rules[K.R_cover]['floor'] = 30
     ck.extra['unified_factories'] = nuni
     ck.extra['factories'] = len(cur)
     ck.samples.append({'contract_example': {'factory': 'expr_factory::make_conditional',
